@@ -148,6 +148,7 @@ ANNOTS = [None, None, "draft", "v2", "a_b"]
 BARE = ["abc", "PROTOCOL_DEFINITION", "v1.2-x", "$USER:name", "$ctx", "trueish", "nullable", "vsx.y", "a.b.c", "x-y-z", "_lead",
         "CamelCase", "falsey", "nullx", "$1", "Z9", "a_b.c-d", "ACTIVE", "done", "$a:b:c"]
 _BARE_ON = [False]
+_CORE4 = [False]
 
 
 def gen_value3(rng):
@@ -157,6 +158,8 @@ def gen_value3(rng):
 
 
 def gen_cval(rng):
+    if _CORE4[0]:
+        return gen_value4(rng)
     if rng.random() < 0.3:
         n = rng.choice([0, 1, 2, 2, 3, 4, 6])
         return ("list", [gen_value3(rng) for _ in range(n)])
@@ -213,6 +216,38 @@ def shape2_line(d, text):
     return f"core2shape {cls} {len(pairs)} " + " ".join(pairs) + " " + astcodec.enc_doc(d)
 
 
+def gen_value4(rng, depth=0):
+    """core4 values: scalars, nested lists (both layouts arise from the emitter), one-pair inline maps as list items"""
+    r = rng.random()
+    if depth >= 4 or r < 0.45:
+        return gen_value3(rng)
+    n = rng.choice([0, 1, 2, 2, 3, 4])
+    items = []
+    for _ in range(n):
+        y = rng.random()
+        if y < 0.45:
+            items.append(gen_value3(rng))
+        elif y < 0.7:
+            items.append(gen_value4(rng, depth + 1) if depth < 3 else gen_value3(rng))
+        else:
+            mv = gen_value3(rng) if rng.random() < 0.75 else ("list", [gen_value3(rng) for _ in range(rng.choice([0, 1, 2, 3]))])
+            items.append(("map", [(rng.choice(["K", "NAME_1", "PATTERN", "REGEX", "ENUM", "x9", "42", "snake_case"]), mv)]))
+    return ("list", items)
+
+
+
+def run4(ctx, n, have_model):
+    """core4 stream (Rt/TokRound4.v): core3 + nested lists + inline-map items; every document is checked by the extracted
+    core4_shape_check (the hypothesis of C02_core4_shape_check_sound) on its emitted text"""
+    _BARE_ON[0] = True
+    _CORE4[0] = True
+    try:
+        return run2(ctx, n, have_model, gen="core4")
+    finally:
+        _BARE_ON[0] = False
+        _CORE4[0] = False
+
+
 def run3(ctx, n, have_model):
     """core3 stream (Rt/BareWord.v): core2 documents whose strings are also drawn from the BARE pool (emitted without quotes)"""
     _BARE_ON[0] = True
@@ -258,7 +293,7 @@ def run2(ctx, n, have_model, gen="core2"):
             ctx.property_failure(dict(case, receipts=[{k: str(v)[:80] for k, v in w.items()} for w in bad[:3]]),
                                  f"{gen} fragment: canonical text produced rewrite receipts")
     if have_model and docs:
-        cmd = "core3shape" if gen == "core3" else "core2shape"
+        cmd = {"core3": "core3shape", "core4": "core4shape"}.get(gen, "core2shape")
         res = run_driver("syn", [shape2_line(d, t).replace("core2shape", cmd, 1) for d, t in zip(docs, texts)])
         ctx.count(len(res))
         dom = run_driver("syn", ["domains " + astcodec.enc_doc(d) for d in docs])
@@ -266,6 +301,12 @@ def run2(ctx, n, have_model, gen="core2"):
         for d, t, r, dm in zip(docs, texts, res, dom):
             bits = int(dm) if dm.isdigit() else 0
             indom = bits & need == need
+            if gen == "core4":
+                # no lexer-half theorem for core4 yet: the domain is the executable hypothesis itself (shape check = 1)
+                incore4 = not r.startswith("X")
+                r = r.lstrip("X")
+                ctx.hist("core4_shape_check", ("core4:" if incore4 else "outside core4:") + {"0": "not-core4", "1": "shape-ok", "2": "mismatch", "3": "LEXERR"}.get(r, r))
+                continue
             ctx.hist(gen + "_shape_check", {"0": "not-" + gen, "1": "shape-ok", "2": "MISMATCH", "3": "LEXERR"}.get(r, r)
                      + ("" if indom else " (outside lex_safe)"))
             ctx.hist("theorem_domain_" + gen, f"{gen}+lex_safe" if indom else f"{gen} only" if bits & 8 else f"outside {gen}")
